@@ -11,6 +11,10 @@ import (
 	"encoding/json"
 	"fmt"
 	"math/rand"
+	"os"
+	"os/exec"
+	"path"
+	"path/filepath"
 	"sort"
 	"strconv"
 	"strings"
@@ -19,6 +23,8 @@ import (
 	"time"
 
 	"github.com/youzan/ZanRedisDB/node"
+	"github.com/youzan/ZanRedisDB/rockredis"
+	"github.com/youzan/ZanRedisDB/server"
 	"github.com/youzan/ZanRedisDB/syncerpb"
 	"google.golang.org/grpc"
 )
@@ -147,6 +153,9 @@ type runner struct {
 	lastStarted          *replica
 	restoreSeen          []int32 // per replica and namespace: a raft snapshot install was observed since the last clean quiescent check
 	suspect              *suspectObs
+	effMu                sync.RWMutex // held (write) while a remote snapshot replaces the receiver's store
+	img                  *receiver    // "source replica image": builds real checkpoints with the content of the source at an ordinal
+	imgNext              int
 }
 
 type suspectObs struct {
@@ -616,6 +625,8 @@ func (rn *runner) stopPollers() {
 }
 
 func (rn *runner) effectSample(r *replica, src *source) {
+	rn.effMu.RLock()
+	defer rn.effMu.RUnlock()
 	r.mu.RLock()
 	defer r.mu.RUnlock()
 	nn := r.nsNodeLocked(fullNS(src.NSBase))
@@ -1262,6 +1273,216 @@ func (rn *runner) snapFail(s *sender, ahead int) {
 		Res: fmt.Sprintf("transfer: %v %v; apply: %v %v; status: %v", r1, e1, r2, e2, st)})
 }
 
+// ------------------------------------------------------------ remote snapshot: transfer ok, first apply fails, retry
+
+// imageAt builds a real checkpoint whose content is the source's content at
+// ordinal o (a second real single-replica server of the same engine is fed
+// the entries 1..o once, in order, and forced to back up) and stages it the
+// way the source node would offer it: <stage>/rocksdb_backup/<term(o)-index(o)>.
+func (rn *runner) imageAt(src *source, o int) (string, error) {
+	ns := fullNS(src.NSBase)
+	if rn.img == nil {
+		img, err := newReceiver(rn.cfg.Name+"-img", rn.rx.dir+"-img", rxConfig{Engine: rn.cfg.Rx.Engine, Replicas: 1, SnapCount: 5, SnapCatchup: 2, Namespaces: []string{src.NSBase}})
+		if err != nil {
+			return "", err
+		}
+		if err := img.start(); err != nil {
+			return "", err
+		}
+		rn.img = img
+		rn.imgNext = 1
+		if img.waitLeader(ns, 30*time.Second) == nil {
+			return "", fmt.Errorf("image server has no leader")
+		}
+	}
+	r := rn.img.reps[0]
+	deadline := time.Now().Add(60 * time.Second)
+	for rn.imgNext <= o {
+		to := rn.imgNext + 63
+		if to > o {
+			to = o
+		}
+		if res := rn.rawCall(context.Background(), r, src, rn.imgNext, to, pathMethod); res != "" {
+			if time.Now().After(deadline) {
+				return "", fmt.Errorf("feeding the image server failed: %s", res)
+			}
+			time.Sleep(100 * time.Millisecond)
+			continue
+		}
+		rn.imgNext = to + 1
+	}
+	r.mu.RLock()
+	nn := r.nsNodeLocked(ns)
+	r.mu.RUnlock()
+	if nn == nil {
+		return "", fmt.Errorf("image namespace not ready")
+	}
+	if _, idx, _ := nn.Node.GetRemoteClusterSyncedRaft(src.Name); idx != src.index(o) {
+		return "", fmt.Errorf("image server is at source index %d, want %d", idx, src.index(o))
+	}
+	a0 := nn.Node.GetAppliedIndex()
+	backupDir := rockredis.GetBackupDir(path.Join(r.dir, ns))
+	var ck string
+	for wd := time.Now().Add(60 * time.Second); ck == "" && time.Now().Before(wd); {
+		nn.Node.BackupDB(false)
+		for i := 0; i < 20 && ck == ""; i++ {
+			dirs, _ := filepath.Glob(path.Join(backupDir, "*-*"))
+			for _, d := range dirs {
+				var t, i uint64
+				if n, err := fmt.Sscanf(filepath.Base(d), "%016x-%016x", &t, &i); err == nil && n == 2 && i >= a0 {
+					if _, err := os.Stat(path.Join(d, "mem.dat")); err == nil || rn.cfg.Rx.Engine != "mem" {
+						ck = d
+					}
+				}
+			}
+			if ck == "" {
+				time.Sleep(100 * time.Millisecond)
+			}
+		}
+	}
+	if ck == "" {
+		return "", fmt.Errorf("the image server produced no checkpoint at or after index %d", a0)
+	}
+	stage := path.Join(rn.rx.dir+"-stage", fmt.Sprintf("o%d", o))
+	dst := path.Join(rockredis.GetBackupDir(stage), rockredis.GetCheckpointDir(src.term(o), src.index(o)))
+	os.RemoveAll(dst)
+	os.MkdirAll(path.Dir(dst), 0755)
+	if out, err := exec.Command("cp", "-rp", ck, dst).CombinedOutput(); err != nil {
+		return "", fmt.Errorf("staging the checkpoint: %v %s", err, out)
+	}
+	return stage, nil
+}
+
+// shipOnce is one round of what the real sender does to ship a snapshot:
+// NotifyTransferSnap, poll the status, NotifyApplySnap, poll the status.
+func (rn *runner) shipOnce(srv *server.Server, src *source, o int, stage string, faultBeforeApply func()) (syncerpb.RaftApplySnapStatus, string) {
+	ns := fullNS(src.NSBase)
+	req := &syncerpb.RaftApplySnapReq{ClusterName: src.Name, RaftGroupName: ns, Term: src.term(o), Index: src.index(o), SyncAddr: "", SyncPath: stage}
+	stReq := &syncerpb.RaftApplySnapStatusReq{ClusterName: src.Name, RaftGroupName: ns, Term: src.term(o), Index: src.index(o)}
+	wait := func(wanted ...syncerpb.RaftApplySnapStatus) (syncerpb.RaftApplySnapStatus, bool) {
+		var last syncerpb.RaftApplySnapStatus
+		for wd := time.Now().Add(40 * time.Second); time.Now().Before(wd); {
+			if rsp, err := srv.GetApplySnapStatus(context.Background(), stReq); err == nil {
+				last = rsp.Status
+				for _, w := range wanted {
+					if last == w {
+						return last, true
+					}
+				}
+			}
+			time.Sleep(20 * time.Millisecond)
+		}
+		return last, false
+	}
+	rpcErr, err := srv.NotifyTransferSnap(context.Background(), req)
+	if err != nil || (rpcErr != nil && rpcErr.ErrCode != 0) {
+		return syncerpb.ApplyUnknown, fmt.Sprintf("notify transfer: %v %v", rpcErr, err)
+	}
+	st, ok := wait(syncerpb.ApplyTransferSuccess, syncerpb.ApplySuccess, syncerpb.ApplyFailed)
+	if !ok {
+		return st, "transfer status not reached"
+	}
+	if st != syncerpb.ApplyTransferSuccess {
+		return st, ""
+	}
+	if faultBeforeApply != nil {
+		faultBeforeApply()
+	}
+	req2 := &syncerpb.RaftApplySnapReq{ClusterName: src.Name, RaftGroupName: ns, Term: src.term(o), Index: src.index(o)}
+	if _, err := srv.NotifyApplySnap(context.Background(), req2); err != nil {
+		return st, "notify apply: " + err.Error()
+	}
+	st, ok = wait(syncerpb.ApplySuccess, syncerpb.ApplyFailed)
+	if !ok {
+		return st, "apply status not reached"
+	}
+	return st, ""
+}
+
+// snapShip: the source compacted its log, so the sender ships its snapshot at
+// an ordinal ahead of the receiver. The transfer succeeds, then the
+// transferred backup is lost before the apply entry runs: the apply fails and
+// the position must stay where it was (quiescent check). The sender retries
+// the whole shipping, undisturbed; afterwards the receiver must hold exactly
+// the source's content at the snapshot ordinal, and the log stream continues.
+func (rn *runner) snapShip(ahead int) {
+	if len(rn.rx.reps) != 1 {
+		return
+	}
+	src := rn.srcs[0]
+	ns := fullNS(src.NSBase)
+	rn.quiescentCheck("before shipping a remote snapshot", false)
+	if rn.violated() || rn.inconcl != "" {
+		return
+	}
+	r := rn.rx.reps[0]
+	pos := rn.positionOrdinal(r, src)
+	if f := rn.frontier(src) - 1; f > pos {
+		pos = f
+	}
+	o := pos + ahead
+	if pos < 0 || o > src.K-20 {
+		return
+	}
+	stage, err := rn.imageAt(src, o)
+	if err != nil {
+		rn.setInconclusive("snapshot image: " + err.Error())
+		return
+	}
+	r.mu.RLock()
+	srv, up := r.srv, r.up
+	r.mu.RUnlock()
+	if !up {
+		return
+	}
+	remote := path.Join(rockredis.GetBackupDirForRemote(path.Join(r.dir, ns)), rockredis.GetCheckpointDir(src.term(o), src.index(o)))
+	lost := false
+	rn.effMu.Lock()
+	st, why := rn.shipOnce(srv, src, o, stage, func() {
+		if _, err := os.Stat(remote); err == nil {
+			os.RemoveAll(remote)
+			lost = true
+		}
+	})
+	rn.effMu.Unlock()
+	rn.count("remote_snapshot_apply_attempts_with_lost_backup", 1)
+	rn.record(event{Kind: "remote-snapshot-shipped-backup-lost-before-apply", Src: src.Name, From: o, To: o, Target: r.idx,
+		Res: fmt.Sprintf("status reported to the sender: %v %s (transferred backup removed: %v)", st, why, lost)})
+	rn.mu.Lock()
+	rn.fpHash = append(rn.fpHash, "snapship")
+	rn.mu.Unlock()
+	// the failed apply must not have moved the position: data == model(position)
+	rn.quiescentCheck("after a remote snapshot apply that failed", false)
+	if rn.violated() || rn.inconcl != "" {
+		return
+	}
+	if lost && st == syncerpb.ApplyFailed {
+		rn.count("remote_snapshot_apply_failed_as_intended", 1)
+	}
+	for i := 0; i < 3 && st != syncerpb.ApplySuccess; i++ {
+		rn.effMu.Lock()
+		st, why = rn.shipOnce(srv, src, o, stage, nil)
+		rn.effMu.Unlock()
+		rn.record(event{Kind: "remote-snapshot-shipped-again", Src: src.Name, From: o, To: o, Target: r.idx, Res: fmt.Sprintf("status: %v %s", st, why)})
+	}
+	if st != syncerpb.ApplySuccess {
+		rn.setInconclusive(fmt.Sprintf("retry of the remote snapshot did not succeed: %v %s", st, why))
+		return
+	}
+	rn.count("remote_snapshots_applied", 1)
+	rn.mu.Lock()
+	rn.sawRestartOrSnap = true
+	rn.mu.Unlock()
+	// the senders continue after the snapshot, like a learner that restored it
+	for _, s := range rn.senders {
+		if s.src == src {
+			s.next = o + 1
+			s.failFrom, s.failTo = 0, 0
+		}
+	}
+	rn.quiescentCheck("after the retried remote snapshot was applied", false)
+}
+
 // ------------------------------------------------------------ plan
 
 func genPlan(cfg scenarioCfg) []step {
@@ -1299,7 +1520,20 @@ func genPlan(cfg scenarioCfg) []step {
 	}
 	delay := func() int { return []int{0, 20, 50, 100, 200, 400, 800, 1500, 3000}[rng.Intn(9)] }
 	downFollower := false
+	snapretry := cfg.Profile == "snapretry"
+	shipAt := map[int]bool{}
+	if snapretry {
+		shipAt[cfg.Steps/4+rng.Intn(5)] = true
+		shipAt[cfg.Steps*2/3+rng.Intn(5)] = true
+	}
 	for len(plan) < cfg.Steps {
+		if snapretry && shipAt[len(plan)] {
+			// the source compacted its log: the sender ships its snapshot; the first apply fails, the sender retries
+			plan = append(plan, step{Op: "snapship", N: 20 + rng.Intn(80)})
+			plan = append(plan, step{Op: "rewind", S: rng.Intn(len(cfg.Senders)), Back: []int{3, 10, 40, 1000}[rng.Intn(4)]})
+			plan = append(plan, step{Op: "send", S: rng.Intn(len(cfg.Senders)), N: pickN()})
+			continue
+		}
 		x := rng.Intn(1000)
 		s := rng.Intn(len(cfg.Senders))
 		switch {
@@ -1332,6 +1566,10 @@ func genPlan(cfg scenarioCfg) []step {
 		case x < 800:
 			plan = append(plan, step{Op: "backup", NS: nsList[rng.Intn(len(nsList))]})
 		case x < 830:
+			if snapretry {
+				// a failed transfer would leave a Failed status that blocks another snapshot of the cluster for 5 minutes
+				continue
+			}
 			plan = append(plan, step{Op: "snapfail", S: s, N: 5 + rng.Intn(30)})
 		default:
 			if !three {
@@ -1439,6 +1677,8 @@ func (rn *runner) exec(st step) {
 		rn.backup(st.NS)
 	case "snapfail":
 		rn.snapFail(rn.senders[st.S], st.N)
+	case "snapship":
+		rn.snapShip(st.N)
 	case "restart-ns":
 		rn.restartNS(st.NS, st.Leader, st.R, true)
 	case "restart-server":
@@ -1565,6 +1805,11 @@ func runScenario(cfg scenarioCfg, dir string) (res scenarioResult) {
 		return
 	}
 	defer rx.stopAll()
+	defer func() {
+		if rn.img != nil {
+			rn.img.stopAll()
+		}
+	}()
 	for full := range rx.nsConfs {
 		if rx.waitLeader(full, 30*time.Second) == nil {
 			res.Inconclusive = "no leader for " + full
